@@ -120,6 +120,12 @@ class SConst(Val):
 
 
 @dataclass
+class SFunc(Val):
+    """a function defined inside the function under contract (a closure): calls are executed in line"""
+    node: Any
+
+
+@dataclass
 class SDictSlot(Val):
     """d[k] of a defaultdict(list) whose lists are modelled by value (dict kind str -> 'vlist'): a view that append() updates in place"""
     d: Any
